@@ -1,6 +1,6 @@
 (* C06 - A decoded token was signed by its issuer over exactly the decoded content. *)
 From Coq Require Import String.
-Require Import Base Node Cbor CborProofs Did Envelope EnvelopeProofs Token SealProofs.
+Require Import Base Node Cbor CborProofs Did Generated Envelope EnvelopeProofs Varsig VarsigProofs Token SealProofs.
 Local Open Scope N_scope.
 
 (* [verify d m s]: the signature check of the key extracted from DID d; [header_of d]: the varsig header
@@ -49,3 +49,24 @@ Theorem C06_typed_inv_implies_generic : forall verify header_of n t,
   env_decode verify header_of itok inv_from_payload inv_tag n = Ok t -> generic_decode verify header_of n = Ok (AInv t).
 Proof. exact generic_typed_agree_inv. Qed.
 Print Assumptions C06_typed_inv_implies_generic.
+
+(* the varsig header table go-ucan writes and requires (Generated.varsig_headers, read off tokens sealed by
+   the running code for a key of every algorithm): an accepted envelope's header is the one of its issuer's
+   key type - a header copied from any algorithm's entry names that same key type - so a signature made for
+   one key type is never accepted under an issuer of another; every header starts with the varsig prefix and
+   ends with the dag-cbor payload encoding; every algorithm a DID can be built for has a header *)
+Theorem C06_accepted_header_names_issuer_key_type : forall verify (A : Type) (bind : node -> res A) tag n a,
+  env_decode verify header_table A bind tag n = Ok a ->
+  exists sg hdr m iss d pm pl,
+    n = List [Bytes sg; Map m] /\
+    (m = [(hdr_key, Bytes hdr); (tag, pl)] \/ m = [(tag, pl); (hdr_key, Bytes hdr)]) /\
+    pl = Map pm /\ map_get (lit "iss") pm = Some (Str iss) /\ did_parse iss = Ok d /\
+    forall c, In (c, hdr) varsig_headers -> key_type c = key_type (fst d).
+Proof. exact accepted_header_names_issuer_key_type. Qed.
+Print Assumptions C06_accepted_header_names_issuer_key_type.
+
+Theorem C06_header_table_well_formed :
+  forallb (fun e => header_shape_ok (snd e)) varsig_headers = true /\
+  forallb (fun c => existsb (fun e => fst e =? c) varsig_headers) emit_codes = true.
+Proof. exact (conj headers_shape headers_cover_emitted). Qed.
+Print Assumptions C06_header_table_well_formed.
